@@ -541,7 +541,7 @@ def record_job(job):
             rem = rng.uniform(0.25, 0.97)          # one step removes a large part of the feed: self-cooling below 0 K
         sc = scenario(rng, kind=kind, removal=rem, prog_p=0.0 if opts.get("overcool") else 0.4,
                       mode=rng.choice(["vac", "press"]) if opts.get("pole") else None)
-        if (opts.get("coarse") or opts.get("overcool")) and rng.random() < 0.25:
+        if (opts.get("coarse") or opts.get("overcool")) and rng.random() < opts.get("unselective_p", 0.3):
             # a hardly selective membrane (the permeate has nearly the feed's composition, so fractions stay inside [0,1] while a coarse
             # step over-consumes the feed), sometimes with a very coarse solver precision on top
             base = gen.logu(rng, 1e-3, 0.1)
@@ -551,7 +551,8 @@ def record_job(job):
                 sc["prec"] = rng.choice([1e-2, 0.1, 0.5, 1.0])
                 if "dt" not in sc:
                     sc["removal"] = rng.uniform(0.4, 0.99)      # the feed is used up in the second or third step, not by much
-            if rng.random() < 0.3:
+                    sc["N"] = rng.choice([3, 4, 5])             # ... so that an over-consumed state would be a REPORTED one
+            elif rng.random() < 0.3:
                 sc["N"] = rng.choice([3, 5, 8])
         if opts.get("overcool"):
             sc["N"] = 2                            # the over-cooled state is the last one reported
